@@ -776,7 +776,7 @@ def run(rep, tier, rng):
                       {"case": {k: v for k, v in m.items() if k != "observed"}, "observed": m.get("observed"),
                        "python": REPLAY_GENERIC.format(al=m["alg"], d=m["d"], stm=m["statements"], src=m.get("sources")),
                        "expected": "Model/Parse.v eval (specification) / Model/Dynamic.v delivered"},
-                      found_input=not m["op"].startswith("model-"))
+                      found_input=not (m["op"].startswith("model-") or m["op"] == "ast-structure-vs-build"))
     rep.count("spec-unrepresentable-skipped", skipped)
 
 
